@@ -99,6 +99,23 @@ func parseObs(b []byte, budget uint64) (o string) {
 	return fmt.Sprintf("R %d %d", n, mx)
 }
 
+// parseErrText is the text of grammar.Parse's error ("" when it accepts).
+func parseErrText(b []byte, budget uint64) (t string) {
+	defer func() {
+		if r := recover(); r != nil {
+			t = "PANIC"
+		}
+	}()
+	var opts []grammar.Option
+	if budget != 0 {
+		opts = append(opts, grammar.MaxExpressions(budget))
+	}
+	if _, err := grammar.Parse("", b, opts...); err != nil {
+		return err.Error()
+	}
+	return ""
+}
+
 // collectStrings gathers every string-ish value reachable from v (subjects for the regexp oracle).
 func collectStrings(v reflect.Value, out map[string]bool, depth int) {
 	if !v.IsValid() || depth > 10 {
